@@ -223,8 +223,94 @@ class Engine(_Base, ExprMixin, CallMixin, StmtMixin):
         self.entry_state = entry
         self.entry_env = env
         self.scan_scopes(st, info.node, st.cur)
+        self.written = set()
         finals = self.exec_block(st, info.node.body)
+        written, self.written = self.written, None
         self.check_exits(c, info, finals, entry, env)
+        if c.use_at_calls or c.modifies:
+            self.check_frame(c, info, finals, entry, env, written)
+
+    def frame_sets(self, c, entry, env):
+        """`modifies` resolved in the entry state: field name -> allowed object refs (None = any object),
+        allowed dict refs, allowed list refs, all-lists flag; or None if everything may be modified"""
+        mods = list(c.modifies)
+        if '*' in mods:
+            return None
+        fields, dicts, lists, all_lists = {}, [], [], '*lists' in mods
+        for m in mods:
+            if m == '*lists':
+                continue
+            if m.startswith('field:'):
+                fields[m[6:]] = None
+                continue
+            kind, text = ('dict', m[5:]) if m.startswith('dict:') else ('list', m[5:]) if m.startswith('list:') else ('field', m)
+            if kind == 'field':
+                base_text, attr = text.rsplit('.', 1)
+                v = self.spec_val(entry.copy(), base_text, env=env)
+                v = v.some() if isinstance(v, VOpt) else v
+                if attr in fields and fields[attr] is None:
+                    continue
+                fields.setdefault(attr, []).append(v.t)
+            else:
+                v = self.spec_val(entry.copy(), text, env=env)
+                v = v.some() if isinstance(v, VOpt) else v
+                (dicts if kind == 'dict' else lists).append(v.t)
+        return fields, dicts, lists, all_lists
+
+    def frame_goal(self, sets, key, now, was, alloc0):
+        """formula: heap map `now` differs from `was` only at allowed or newly allocated objects (None: unrestricted)"""
+        fields, dicts, lists, all_lists = sets
+        if key[0] == 'f':
+            allowed = fields.get(key[1], [])
+            if key[1] in fields and allowed is None:
+                return None
+        elif key[0] in ('dd', 'dv'):
+            allowed = dicts
+        elif key[0] in ('ll', 'le', 'lj'):
+            if all_lists:
+                return None
+            allowed = lists
+        else:
+            return None
+        chain, t = [], now
+        while z3.is_app(t) and t.decl().kind() == z3.Z3_OP_STORE:
+            chain.append((t.arg(1), t.arg(2)))
+            t = t.arg(0)
+        if t.eq(was):
+            goals = [z3.Or(i >= alloc0, z3.Or(*[i == o for o in allowed]) if allowed else z3.BoolVal(False), z3.Select(was, i) == v)
+                     for i, v in chain]
+            return z3.And(*goals) if goals else z3.BoolVal(True)
+        r = z3.Int(fresh_name('fr'))
+        pre = z3.And(r >= 1, r < alloc0)
+        return z3.ForAll([r], z3.Implies(z3.And(pre, *[r != o for o in allowed]), z3.Select(now, r) == z3.Select(was, r)))
+
+    def frame_label(self, name, key):
+        if key[0] == 'f':
+            return '%s/frame[.%s]' % (name, key[1]), 'writes to .%s outside `modifies`' % key[1]
+        if key[0] in ('dd', 'dv'):
+            return '%s/frame[dict-contents]' % name, 'changes a dictionary outside `modifies`'
+        return '%s/frame[list-contents]' % name, 'changes a list outside `modifies`'
+
+    def check_frame(self, c, info, finals, entry, env, written):
+        """everything the body writes must be covered by `modifies` (objects allocated inside the call are exempt)"""
+        sets = self.frame_sets(c, entry, env)
+        if sets is None:
+            return
+        for s in finals:
+            for key in sorted(written, key=str):
+                now = s.heap.get(key)
+                if now is None:
+                    continue
+                was = entry.heap.get(key)
+                if was is None:
+                    was = z3.Const('H0:' + ':'.join(str(k) for k in key), now.sort())
+                if now.eq(was):
+                    continue
+                goal = self.frame_goal(sets, key, now, was, entry.alloc)
+                if goal is None:
+                    continue
+                label, note = self.frame_label(c.target, key)
+                self.check(s, goal, label, note=note)
 
     def check_exits(self, c, info, finals, entry, env):
         name = c.target
